@@ -101,10 +101,14 @@ class Tables:
         loops = [n for n in walk_no_nested(f.node) if isinstance(n, ast.For)]
         ok = False
         for lp in loops:
-            if not isinstance(lp.target, ast.Tuple) or len(
-                    lp.target.elts) != 4:
+            if isinstance(lp.target, ast.Tuple) and len(
+                    lp.target.elts) == 4:
+                a, b = U(lp.target.elts[0]), U(lp.target.elts[1])
+            elif isinstance(lp.target, ast.Name):
+                # the row as a whole, read by position
+                a, b = lp.target.id + "[0]", lp.target.id + "[1]"
+            else:
                 continue
-            a, b = U(lp.target.elts[0]), U(lp.target.elts[1])
             for n in ast.walk(lp):
                 if isinstance(n, ast.Call) and U(n.func) == "re.sub" and \
                         len(n.args) == 3 and U(n.args[0]) == a and \
